@@ -472,3 +472,43 @@ impl<'a> VacantEntry<'a> {
         Key { index, stream_id }
     }
 }
+
+#[cfg(feature = "verif-hooks")]
+impl Store {
+    /// Read-only iteration in `ids` order (verification hook).
+    pub(super) fn verif_streams(&self) -> impl Iterator<Item = &Stream> {
+        self.ids.values().map(move |i| &self.slab[i.0 as usize])
+    }
+
+    pub(super) fn verif_sizes(&self) -> (usize, usize) {
+        (self.ids.len(), self.slab.len())
+    }
+}
+
+#[cfg(feature = "verif-hooks")]
+impl<N> Queue<N>
+where
+    N: Next,
+{
+    /// Stream ids in queue order (verification hook, read-only).
+    pub(super) fn verif_ids(&self, store: &Store) -> Vec<u32> {
+        let mut out = Vec::new();
+        let mut cur = self.indices.map(|i| i.head);
+        let tail = self.indices.map(|i| i.tail);
+        while let Some(k) = cur {
+            let s = match store.slab.get(k.index.0 as usize) {
+                Some(s) if s.id == k.stream_id => s,
+                _ => {
+                    out.push(u32::MAX);
+                    break;
+                }
+            };
+            out.push(s.id.into());
+            if Some(k) == tail || out.len() > 100_000 {
+                break;
+            }
+            cur = N::next(s);
+        }
+        out
+    }
+}
